@@ -27,6 +27,8 @@ func init() {
 		NotDecided: "Semantic equivalence with the FRR-mode output (needs an interpretation of both); behaviour of frr-k8s itself.",
 		Run:        runC15,
 		Mutants: []Mutant{
+			{Name: "routers-keyed-by-source-address", File: "internal/bgp/frrk8s/frrk8s.go",
+				Old: "\t\trouterName := frr.RouterName(s.RouterID.String(), s.MyASN, s.VRFName)", New: "\t\trouterName := frr.RouterName(s.SourceAddress.String(), s.MyASN, s.VRFName)", Expect: "ROUTER-KEY"},
 			{Name: "hand-over-outside-the-manager-lock", File: "internal/bgp/frrk8s/frrk8s.go",
 				Old: "\tsm.configChangedCallback(newConfig)\n",
 				New: "\tcallback := sm.configChangedCallback\n\tsm.Unlock()\n\tcallback(newConfig)\n\tsm.Lock()\n", Expect: "handed-over-under-the-lock"},
@@ -65,6 +67,8 @@ func init() {
 }
 
 func runC15(p *chk.Prog, r *chk.Report) {
+	routerKeyRule(p, r, fk8Pkg, "updateConfig")
+	sessionKeyRule(p, r, fk8Pkg)
 	scratchRule(p, r, "internal/bgp/frrk8s")
 	c15Dump(p, r)
 	c15MapOrder(p, r)
@@ -475,7 +479,7 @@ func c15Password(p *chk.Prog, r *chk.Report) {
 				ok = false
 			}
 			for _, e := range es {
-				if g.BranchAlways(e, func(n ast.Node) bool { return isErrReturn(f, n) }).Found {
+				if !branchRefuses(f, g, e, 0) {
 					ok = false
 				}
 			}
@@ -535,6 +539,29 @@ func c15Password(p *chk.Prog, r *chk.Report) {
 						}
 					}
 					okPw = nPlain == 1 && nSecret == 1 && other == 0
+					if !okPw {
+						// the other way round: the secret's content first, spec.password when that is empty
+						nS, nP, oth := 0, 0, 0
+						isV := pf.IsObj(o)
+						for _, a := range assignsTo(pf, o) {
+							as, isAs := a.(*ast.AssignStmt)
+							if !isAs || len(as.Rhs) != 1 {
+								oth++
+								continue
+							}
+							sites := g.Find(func(m ast.Node) bool { return m == ast.Node(as) })
+							switch {
+							case pf.MatchWith("C.SecretPassword", as.Rhs[0], chk.H("C", cfg)) != nil:
+								nS++
+							case pf.MatchWith("C.Password", as.Rhs[0], chk.H("C", cfg)) != nil && len(sites) == 1 &&
+								g.Dominated(sites[0], chk.GSame(g.GPat(true, `V == ""`, chk.H("V", isV)), g.GPat(true, `C.SecretPassword == ""`, chk.H("C", cfg)))):
+								nP++
+							default:
+								oth++
+							}
+						}
+						okPw = nS == 1 && nP == 1 && oth == 0
+					}
 				}
 				x.Check("passwordForSession:return#"+itoa(n)+":no-secret-ref", rt.Pos(), okPw, "", "a back end that gets no secret reference is not given the effective plain-text password (spec.password, or the secret's content when the peer uses a secret): the session is configured without / with the wrong password")
 				continue
